@@ -708,6 +708,7 @@ func c10DefaultErrorOutput(t *testing.T) {
 }
 
 func TestRegressC10(t *testing.T) {
+	c10BlankErrorTextStillReported(t)
 	c10DefaultErrorOutput(t)
 	// Stringers over an uncomparable element type whose String panics: contained like any other
 	{
